@@ -705,7 +705,8 @@ func parseVerbatim(t *Tree, start Pos) (Node, error) {
 		case tokenError:
 			return nil, newUnexpectedTokenError(tok)
 		case tokenTagOpen:
-			tok := t.next()
+			mark := len(t.read)
+			t.next()
 			tok, err := t.expect(tokenName)
 			if err != nil {
 				return nil, err
@@ -715,6 +716,11 @@ func parseVerbatim(t *Tree, start Pos) (Node, error) {
 					return nil, err
 				}
 				return NewTextNode(body.String(), start), nil
+			}
+			// Some other tag: the tokens just read (the opening delimiter, any
+			// whitespace and the name) are part of the literal body.
+			for _, rt := range t.read[mark:] {
+				body.WriteString(rt.value)
 			}
 		default:
 			tok := t.next()
